@@ -143,3 +143,21 @@ def expected_full_cfg_edges(cfg):
             for n in b["next"]:
                 edges.add((b["idx"], n))
     return sorted(edges)
+
+
+def call_graph_edges(text, hashseed="0"):
+    """runs `tealer print call-graph` on the contract and returns (sorted edge list or None when no file was written, rc, stderr tail)"""
+    tmp = tempfile.mkdtemp(prefix="verif_cg_")
+    try:
+        f = os.path.join(tmp, "c.teal")
+        with open(f, "w") as fh:
+            fh.write(text + "\n")
+        rc, _out, err = run_cli(["print", "call-graph", "--contracts", f], tmp, hashseed)
+        for root, _, files in os.walk(tmp):
+            for fn in files:
+                if fn.endswith("call-graph.dot"):
+                    dot = open(os.path.join(root, fn)).read()
+                    return sorted(set(re.findall(r"^\s*\"?([A-Za-z_][\w.]*)\"?\s*->\s*\"?([A-Za-z_][\w.]*)\"?", dot, re.M))), rc, err[-300:]
+        return None, rc, err[-300:]
+    finally:
+        shutil.rmtree(tmp, ignore_errors=True)
